@@ -409,10 +409,9 @@ def _build():
                 raise RuntimeError("fixture flags differ at %s" % n)
             if (getattr(c, "filterable", None) is False) != (n in MARKED_OFF):
                 raise RuntimeError("fixture non-filterable mark differs at %s" % n)
-    for c in fx.all:
-        if c in filters.FILTERS or c in filters._CACHE:
-            raise RuntimeError("fresh fixture component already present in the filter tables")
     fx.filters = filters
+    if any(e for _, e in _snapshot_tables(fx)):
+        raise RuntimeError("fresh fixture component already present in the filter tables")
     fx.dr = dr
     fx.HostContext = HostContext
     fx.HostArchiveContext = HostArchiveContext
@@ -422,28 +421,94 @@ def _build():
     return fx
 
 
-def _reset_tables(fx):
-    F, C = fx.filters.FILTERS, fx.filters._CACHE
-    inset = fx.allset
-    for c in [c for c in F if c in inset]:
-        del F[c]
-    for c in [c for c in C if c in inset]:
-        del C[c]
+# ---------------------------------------------------------------------------------------------
+# The state of insights.core.filters, handled GENERICALLY: every module-level dict / list / set of the module is a
+# state container, found by type and never by name (today: the public FILTERS and one private look-up memo), so a
+# refactoring that renames, re-keys, splits or re-binds the memo does not break the check.  An entry belongs to the
+# fixture when a fixture component occurs in its key (or, for lists / sets, in the element); all other entries are
+# never touched.
+# ---------------------------------------------------------------------------------------------
+_CONTAINER_NAMES = [None, -1]
+
+
+def _containers(fx):
+    ns = vars(fx.filters)
+    if _CONTAINER_NAMES[1] != len(ns):
+        _CONTAINER_NAMES[0] = [n for n in sorted(ns) if isinstance(ns[n], (dict, list, set)) and not n.startswith("__")]
+        _CONTAINER_NAMES[1] = len(ns)
+    return [(n, ns[n]) for n in _CONTAINER_NAMES[0] if isinstance(ns.get(n), (dict, list, set))]
+
+
+def _owned(k, inset):
+    try:
+        if k in inset:
+            return True
+    except TypeError:
+        pass
+    if isinstance(k, (tuple, frozenset, list, set)):
+        return any(_owned(x, inset) for x in k)
+    return False
+
+
+def _reset_tables(fx, inset=None, containers=None):
+    """Removes every entry of the fixture's components from every state container."""
+    inset = fx.allset if inset is None else inset
+    for _, obj in (containers or _containers(fx)):
+        if isinstance(obj, dict):
+            for k in [k for k in obj if _owned(k, inset)]:
+                del obj[k]
+        elif isinstance(obj, list):
+            obj[:] = [x for x in obj if not _owned(x, inset)]
+        else:
+            for x in [x for x in obj if _owned(x, inset)]:
+                obj.discard(x)
+
+
+def _copy_struct(v, memo):
+    """Copies dict / list / set structure (order and object sharing kept), leaves everything else by reference."""
+    if isinstance(v, (dict, list, set)):
+        if id(v) in memo:
+            return memo[id(v)]
+        if isinstance(v, dict):
+            out = memo[id(v)] = {}
+            for k, x in v.items():
+                out[k] = _copy_struct(x, memo)
+        elif isinstance(v, list):
+            out = memo[id(v)] = []
+            out.extend(_copy_struct(x, memo) for x in v)
+        else:
+            out = memo[id(v)] = set(v)
+        return out
+    return v
 
 
 def _snapshot_tables(fx):
-    """The fixture's part of FILTERS as produced by the real add_filter calls (insertion order kept)."""
+    """The fixture's part of every state container as the real calls left it (insertion order and sharing kept)."""
     inset = fx.allset
-    return [(c, list(v.items())) for c, v in fx.filters.FILTERS.items() if c in inset]
+    snap = []
+    for name, obj in _containers(fx):
+        if isinstance(obj, dict):
+            snap.append((name, [(k, v) for k, v in obj.items() if _owned(k, inset)]))
+        else:
+            snap.append((name, [x for x in obj if _owned(x, inset)]))
+    return snap
 
 
 def _restore_tables(fx, snap):
-    """Fresh dict objects holding the registered state, empty look-up cache: what a fresh registration yields.
+    """Fresh container objects holding the snapshotted state: what re-doing the registration from scratch yields.
     Makes every case independent of what earlier cases may have done to the shared tables."""
     _reset_tables(fx)
-    F = fx.filters.FILTERS
-    for c, items in snap:
-        F[c] = dict(items)
+    live = dict(_containers(fx))
+    memo = {}
+    for name, entries in snap:
+        obj = live[name]
+        if isinstance(obj, dict):
+            for k, v in entries:
+                obj[k] = _copy_struct(v, memo)
+        elif isinstance(obj, list):
+            obj.extend(_copy_struct(x, memo) for x in entries)
+        else:
+            obj.update(entries)
 
 
 def _mkroot(fx):
@@ -473,46 +538,162 @@ def _rmroot(fx):
 # expanded: everything behind it is behind a reported violation.  This keeps the search finite and small on a
 # tree with a stale-cache defect (otherwise every stale cache content is a state of its own).
 # ---------------------------------------------------------------------------------------------
+def _cv(v, idx):
+    """Canonical form of a value: containers sorted, fixture components by index, scalars as they are."""
+    c = v.__class__
+    if c is str or c is int or v is None or c is bool or c is float:
+        return v
+    if c is dict or isinstance(v, dict):
+        flat = True
+        for k, x in v.items():
+            if k.__class__ not in _SC or x.__class__ not in _SC:
+                flat = False
+                break
+        if flat:
+            try:
+                return ("D", tuple(sorted(v.items())))      # flat dict of scalars
+            except TypeError:
+                pass
+        items = [(_cv(k, idx), _cv(x, idx)) for k, x in v.items()]
+        try:
+            items.sort()
+        except TypeError:
+            items.sort(key=repr)
+        return ("d", tuple(items))
+    if isinstance(v, (list, tuple)):
+        return ("t" if isinstance(v, tuple) else "l", tuple(_cv(x, idx) for x in v))
+    if isinstance(v, (set, frozenset)):
+        return ("s", tuple(sorted((_cv(x, idx) for x in v), key=repr)))
+    try:
+        i = idx.get(v)
+    except TypeError:
+        i = None
+    if i is not None:
+        return ("c", i)
+    if isinstance(v, str):
+        return str(v)
+    _OPAQUE[id(v)] = v
+    return ("o", id(v))
+
+
+_OPAQUE = {}
+_SC = (str, int, bool, float, type(None))
+
+
+def _rv(cv, comps):
+    """Inverse of _cv (fresh containers)."""
+    if cv.__class__ is not tuple:
+        return cv
+    tag, body = cv
+    if tag == "D":
+        return dict(body)
+    if tag == "d":
+        return dict((k if k.__class__ is not tuple else _rv(k, comps), x if x.__class__ is not tuple else _rv(x, comps))
+                    for k, x in body)
+    if tag == "l":
+        return [_rv(x, comps) for x in body]
+    if tag == "t":
+        return tuple(_rv(x, comps) for x in body)
+    if tag == "s":
+        return set(_rv(x, comps) for x in body)
+    if tag == "c":
+        return comps[body]
+    return _OPAQUE[body]
+
+
 def _canon(fx, g="main"):
-    """Canonical (FILTERS, _CACHE) restricted to the components of fixture g: two sorted tuples of
-    (component index, sorted items), plus the SHARING pattern: which table slots hold the very same dict object
-    (an in-place update through one slot is visible through the others, so identity is part of the state; a
-    correct implementation never shares, the third component is then empty).  Entries of other components are
-    never touched."""
+    """Canonical state restricted to the components of fixture g: for every state container that holds entries of the
+    fixture, its name and the sorted canonical entries; plus the SHARING pattern: which entries hold the very same
+    container object (an in-place update through one slot is visible through the others, so identity is part of the
+    state; a correct implementation never shares, the second component is then empty)."""
     idx = fx.idxs[g]
-    f, k, ids = [], [], {}
-    for c, v in fx.filters.FILTERS.items():
-        if c in idx:
-            f.append((idx[c], tuple(sorted(v.items()))))
-            ids.setdefault(id(v), []).append((0, idx[c]))
-    for c, v in fx.filters._CACHE.items():
-        if c in idx:
-            k.append((idx[c], tuple(sorted(v.items()))))
-            ids.setdefault(id(v), []).append((1, idx[c]))
-    f.sort()
-    k.sort()
+    tabs, ids, n = [], {}, 0
+    for name, obj in _containers(fx):
+        if isinstance(obj, dict):
+            ent = []
+            for k, v in obj.items():
+                try:
+                    i = idx.get(k)
+                except TypeError:
+                    i = None
+                if i is not None:
+                    ck = ("c", i)
+                elif k.__class__ in _SC or not _owned(k, idx):
+                    continue
+                else:
+                    ck = _cv(k, idx)
+                if True:
+                    ent.append((ck, _cv(v, idx)))
+                    if isinstance(v, (dict, list, set)):
+                        ids.setdefault(id(v), []).append((name, ck))
+                        n += 1
+            if ent:
+                try:
+                    ent.sort()
+                except TypeError:
+                    ent.sort(key=repr)
+                tabs.append((name, "d", tuple(ent)))
+        else:
+            ent = [_cv(x, idx) for x in obj if _owned(x, idx)]
+            if ent:
+                if isinstance(obj, set):
+                    ent.sort(key=repr)
+                tabs.append((name, "s" if isinstance(obj, set) else "l", tuple(ent)))
     shared = ()
-    if len(ids) < len(f) + len(k):
-        shared = tuple(sorted(tuple(sorted(slots)) for slots in ids.values() if len(slots) > 1))
-    return (tuple(f), tuple(k), shared)
+    if len(ids) < n:
+        shared = tuple(sorted(tuple(sorted(slots, key=repr)) for slots in ids.values() if len(slots) > 1))
+    return (tuple(tabs), shared)
 
 
 def _restore(fx, canon, g="main"):
     idx, comps = fx.idxs[g], fx.parts[g]
-    F, C = fx.filters.FILTERS, fx.filters._CACHE
-    for c in [c for c in F if c in idx]:
-        del F[c]
-    for c in [c for c in C if c in idx]:
-        del C[c]
-    for i, items in canon[0]:
-        F[comps[i]] = dict(items)
-    for i, items in canon[1]:
-        C[comps[i]] = dict(items)
-    for slots in canon[2]:
-        tabs = [F if t == 0 else C for t, _ in slots]
-        one = tabs[0][comps[slots[0][1]]]
-        for tab, (_, i) in zip(tabs[1:], slots[1:]):
-            tab[comps[i]] = one
+    cont = _containers(fx)
+    _reset_tables(fx, idx, cont)
+    live = dict(cont)
+    for name, kind, ent in canon[0]:
+        obj = live[name]
+        if kind == "d":
+            for ck, cv in ent:
+                obj[comps[ck[1]] if ck[0] == "c" else _rv(ck, comps)] = dict(cv[1]) if cv.__class__ is tuple and cv[0] == "D" else _rv(cv, comps)
+        elif kind == "l":
+            obj.extend(_rv(x, comps) for x in ent)
+        else:
+            obj.update(_rv(x, comps) for x in ent)
+    for slots in canon[1]:
+        n0, k0 = slots[0]
+        one = live[n0][_rv(k0, comps)]
+        for n1, k1 in slots[1:]:
+            live[n1][_rv(k1, comps)] = one
+
+
+def _comps_in(cv, out):
+    if cv.__class__ is tuple:
+        if cv[0] == "c":
+            out.add(cv[1])
+        else:
+            for x in cv[1]:
+                _comps_in(x, out)
+    return out
+
+
+def _memo_targets(real):
+    """Component indices that occur in keys of state containers OTHER than the public registration table: the
+    components for which some look-up memo exists in this state (used only to measure non-triviality)."""
+    out = set()
+    for name, kind, ent in real[0]:
+        if name != "FILTERS":
+            for e in ent:
+                _comps_in(e[0] if kind == "d" else e, out)
+    return out
+
+
+def _has_int(cv, n):
+    """an integer n occurs somewhere as a VALUE of the canonical state (component indices do not count)"""
+    if cv.__class__ is tuple:
+        if len(cv) == 2 and cv[0] == "c":
+            return False
+        return any(_has_int(x, n) for x in cv)
+    return cv.__class__ is int and cv == n
 
 
 def _do(fx, ev):
@@ -633,7 +814,7 @@ def explore_histories(unit, res):
     def counted(real, ev):
         if only2 is None:
             return True
-        return (ev[0] == "add" and ev[3] == only2) or any(b == only2 for tab in real[:2] for (_, items) in tab for (_, b) in items)
+        return (ev[0] == "add" and ev[3] == only2) or _has_int(real[0], only2)
 
     try:
         while frontier:
@@ -643,7 +824,7 @@ def explore_histories(unit, res):
             succ = []
             bad_state = False
             state_model = RefModel(mkey)
-            cached = set(i for i, _ in real[1])
+            cached = _memo_targets(real)
             # the invariant of the state: every look-up answers what the reference says
             for ev in ev_get:
                 _restore(fx, real, g)
